@@ -41,7 +41,7 @@ pub enum Content {
     Run { byte: u8, len: u64 },
     /// text-like (compressible, non trivial)
     Text { len: u64, seed: u64 },
-    /// huge: zeros with 8 marker bytes at every MiB boundary and at the very end; never materialised
+    /// huge: zeros with 8 marker bytes at every 64 MiB boundary and at the very end; never materialised
     Sparse { len: u64, seed: u64 },
 }
 
@@ -83,7 +83,7 @@ impl Content {
         match self {
             Content::Sparse { len, seed } => {
                 buf.iter_mut().for_each(|b| *b = 0);
-                const STEP: u64 = 1 << 20;
+                const STEP: u64 = 1 << 26;
                 let end = off + buf.len() as u64;
                 let mut m = off / STEP * STEP;
                 while m < end {
